@@ -8,6 +8,6 @@ CONSTANTS
   EmitOn = FALSE
 SPECIFICATION Spec
 VIEW View
-INVARIANTS NeverShifted DoneExact ErrIffTruncated Progress Refusals Aligned IndexSound YieldLemma BigLemma
+INVARIANTS NeverShifted DoneExact ErrIffTruncated Progress Refusals Aligned IndexSound YieldLemma BigLemma RestingPlace
 PROPERTY Terminates
 CHECK_DEADLOCK FALSE
